@@ -1309,6 +1309,7 @@ op_misuse(Ctx &c, Task &t, int kind)
 #include "ops_scrub.inc"
 #include "ops_ext.inc"
 #include "ops_keyprep.inc"
+#include "ops_dmisuse.inc"
 
 void
 sgl_stream_done(Ctx &c, Task &t, int stream)
@@ -1317,6 +1318,8 @@ sgl_stream_done(Ctx &c, Task &t, int stream)
                 return;
         sgl_final_check(c, t, *c.streams[(size_t) stream]);
 }
+
+void op_direct_misuse(Ctx &c, Task &t, const Op &op);
 
 void
 exec_op(Ctx &c, size_t k)
@@ -1339,7 +1342,12 @@ exec_op(Ctx &c, size_t k)
         case OP_FLUSH_BURST: op_flush_burst(c, t, (uint32_t) op.a); break;
         case OP_REINIT: op_reinit(c, t, op.a); break;
         case OP_REATTACH: op_reattach(c, t, op.a); break;
-        case OP_MISUSE: op_misuse(c, t, op.a); break;
+        case OP_MISUSE:
+                if (op.a >= 100)
+                        op_direct_misuse(c, t, op);
+                else
+                        op_misuse(c, t, op.a);
+                break;
         case OP_MARK: c.after_mark = true; break;
         case OP_SYNC_BURST: op_sync_burst(c, t, op); break;
         case OP_DIRECT: op_direct(c, t, op); break;
@@ -1375,6 +1383,12 @@ nested_op(void *arg)
 }
 
 } // namespace
+
+int
+direct_misuse_count()
+{
+        return k_ndm;
+}
 
 RunResult
 run_plan(const Plan &p, const RunOpts &o)
